@@ -655,7 +655,7 @@ def _faults_at_every_point_of_the_first_request(ctx):
         ("load", Retort, lambda r: r.load(good, Tree), [lambda r: r.load(good, Tree), lambda r: r.dump(Tree([]), Tree)]),
         ("get_converter", ConversionRetort, lambda r: r.get_converter(Src, Dst), [lambda r: r.convert(Src(1, Leaf(2), [Leaf(3)]), Dst), lambda r: r.get_converter(Leaf, LeafD)(Leaf(7))]),
     ]
-    points = 36 if ctx.tier == "quick" else 400
+    points = 36 if ctx.tier == "quick" else 150
     for name, mk, first, probes in plans:
         _, total = traced(lambda: first(mk()), -1, _InjectedError)
         refs = [attempt(p, mk()) for p in probes]
